@@ -320,8 +320,22 @@ epoll_apply_one_change(struct event_base *base,
 		return 0;
 	}
 
-	if ((ch->read_change|ch->write_change|ch->close_change) & EV_CHANGE_ET)
-		events |= EPOLLET;
+	{
+		/* Edge-triggering is decided by the events being added; a
+		 * pending delete of an edge-triggered event must not make the
+		 * level-triggered events added after it edge-triggered.  Only
+		 * when nothing is added do the deletes tell us what remains. */
+		ev_uint8_t adds = 0;
+		ev_uint8_t all = ch->read_change|ch->write_change|ch->close_change;
+		if (ch->read_change & EV_CHANGE_ADD)
+			adds |= ch->read_change;
+		if (ch->write_change & EV_CHANGE_ADD)
+			adds |= ch->write_change;
+		if (ch->close_change & EV_CHANGE_ADD)
+			adds |= ch->close_change;
+		if ((adds ? adds : all) & EV_CHANGE_ET)
+			events |= EPOLLET;
+	}
 
 	memset(&epev, 0, sizeof(epev));
 #ifdef EVENT__HAVE_WEPOLL
